@@ -428,11 +428,107 @@ theorem allLabels_aligned {s : MState} (hs : SInv s) {dfmt : String} {names : Li
 
 /-! ### totality: `all_variable_labels` fails only if a name cannot be formatted -/
 
+theorem mapM_ok_of_forall {α β : Type} {f : α → Except Err β} {l : List α}
+    (h : ∀ a ∈ l, ∃ b, f a = .ok b) : ∃ r, l.mapM f = .ok r := by
+  induction l with
+  | nil => exact ⟨[], by simp [List.mapM_nil, pure, Except.pure]⟩
+  | cons a l ih =>
+    obtain ⟨b, hb⟩ := h a (by simp)
+    obtain ⟨r, hr⟩ := ih (fun x hx => h x (by simp [hx]))
+    exact ⟨b :: r, by rw [List.mapM_cons]; simp only [hb, hr, bind, Except.bind, pure, Except.pure]⟩
+
+theorem defaultNames_defined {dfmt : String} {a b : Nat}
+    (h : ∀ u, a ≤ u → u < b → ∃ n, (defaultName dfmt u).map some = .ok n) :
+    ∃ ls, defaultNames dfmt a b = .ok ls :=
+  mapM_ok_of_forall (fun u hu => h u (mem_rangeN.1 hu).1 (mem_rangeN.1 hu).2)
+
+/-- converse of `groupNames_spec`: if every variable of the group has a name, `groupNames` succeeds -/
+theorem groupNames_defined {dfmt : String} {g : Group} {gs : List Group} (h : g.WF) (hne : g.len ≠ 0)
+    (hn : ∀ i, i < g.len → ∃ n, varName (g :: gs) dfmt (g.start + i) = .ok n) :
+    ∃ ls, groupNames dfmt g g.start = .ok ls := by
+  by_cases hsg : g.isSingle = true
+  · cases g with
+    | single s name =>
+      cases name with
+      | none =>
+        obtain ⟨n, hn0⟩ := hn 0 (by simp [Group.len])
+        simp only [groupNames, Group.start, bind, Except.bind, pure, Except.pure]
+        cases hd : defaultName dfmt s with
+        | error e => simp [varName, Group.contains, Group.start, Group.len, Except.map, hd] at hn0
+        | ok d => exact ⟨_, rfl⟩
+      | some nm => exact ⟨[some nm], rfl⟩
+    | _ => simp [Group.isSingle] at hsg
+  · have hns : g.isSingle = false := by simpa using hsg
+    rw [groupNames_nonsingle hns, allLabels_eq hns]
+    obtain ⟨idxs, h1, _⟩ := Group.indices_nil h
+    have hlen := Group.length_indices h h1
+    have hm : ∃ ls, idxs.mapM g.labelOf = .ok ls := by
+      apply mapM_ok_of_forall
+      intro idx hidx
+      obtain ⟨i, hi, rfl⟩ := List.mem_iff_getElem.1 hidx
+      obtain ⟨n, hn'⟩ := hn i (by omega)
+      have hc : g.contains ((g.start + i : Nat) : Int) = true :=
+        (contains_iff _ _).2 ⟨Nat.le_add_right _ _, by omega⟩
+      rw [varName_owner_nonsingle hc hns, (Group.toIndex_nth h h1 hi).1] at hn'
+      simp only [bind, Except.bind, pure, Except.pure] at hn'
+      cases hl : g.labelOf idxs[i] with
+      | error e => rw [hl] at hn'; cases hn'
+      | ok l => exact ⟨l, rfl⟩
+    obtain ⟨ls, hls⟩ := hm
+    exact ⟨ls.map some, by simp only [h1, hls, bind, Except.bind, pure, Except.pure]⟩
+
+/-- converse of `loop_spec`: if every variable from `varid` up to a bound past the last group has
+a name, the loop succeeds -/
+theorem loop_defined {dfmt : String} {gs : List Group} {lo varid hi : Nat} (hc : Chain lo gs)
+    (hv : varid ≤ lo) (hhi : chainEnd lo gs ≤ hi)
+    (hn : ∀ u, varid ≤ u → u < hi → ∃ n, varName gs dfmt u = .ok n) :
+    ∃ r, allLabelsLoop dfmt gs varid = .ok r := by
+  induction gs generalizing lo varid with
+  | nil => exact ⟨_, rfl⟩
+  | cons g gs ih =>
+    obtain ⟨hlo, hwf, hrest⟩ := hc
+    simp only [allLabelsLoop]
+    by_cases hz : g.len = 0
+    · simp only [hz, if_true]
+      have hc' : Chain g.start gs := by simpa [hz] using hrest
+      have hcf : ∀ u : Nat, g.contains (u : Int) = false := by
+        intro u; simp [Group.contains, hz]
+      refine ih hc' (by omega) (by simpa [chainEnd, hz] using hhi) (fun u h1 h2 => ?_)
+      rw [← varName_cons_of_not_contains (g := g) (hcf u)]; exact hn u h1 h2
+    · simp only [hz, if_false, bind, Except.bind, pure, Except.pure]
+      have hmax : max varid g.start = g.start := by omega
+      rw [hmax]
+      have hchain : Chain g.start (g :: gs) := ⟨Nat.le_refl _, hwf, hrest⟩
+      have hhi' : chainEnd (g.start + g.len) gs ≤ hi := by simpa [chainEnd] using hhi
+      have hend : g.start + g.len ≤ hi := Nat.le_trans (chain_le_chainEnd hrest) hhi'
+      obtain ⟨gap, hgap⟩ := defaultNames_defined (dfmt := dfmt) (a := varid) (b := g.start) (fun u h1 h2 => by
+        have := hn u h1 (by omega)
+        rwa [varName_of_find_none (chain_find_below hchain h2)] at this)
+      obtain ⟨names, hnames⟩ := groupNames_defined (dfmt := dfmt) (gs := gs) hwf hz
+        (fun i hi' => hn _ (by omega) (by omega))
+      obtain ⟨⟨rest, v⟩, hr⟩ := ih hrest (Nat.le_refl _) hhi' (fun u h1 h2 => by
+        have hcf : g.contains (u : Int) = false := by
+          simp [Group.contains]; omega
+        rw [← varName_cons_of_not_contains (g := g) hcf]; exact hn u (by omega) h2)
+      exact ⟨(gap ++ names ++ rest, v), by simp only [hgap, hnames, hr]⟩
+
 /-- on a state satisfying the invariant, if every variable has a name (its label / default name
 can be formatted) then `all_variable_labels` succeeds — in particular its final `assert` never fires -/
 theorem allLabels_defined {s : MState} (hs : SInv s) {dfmt : String}
     (hn : ∀ v, 1 ≤ v → v ≤ s.numvar → ∃ n, varName s.groups dfmt v = .ok n) :
-    ∃ names, allLabels s dfmt = .ok names := sorry
+    ∃ names, allLabels s dfmt = .ok names := by
+  obtain ⟨hc, he⟩ := hs
+  obtain ⟨⟨ls, v⟩, hlv⟩ := loop_defined (dfmt := dfmt) (hi := s.numvar + 1) hc (Nat.le_refl 1) he
+    (fun u h1 h2 => hn u h1 (by omega))
+  obtain ⟨a1, a2, a3, a4, a5⟩ := loop_spec hc (Nat.le_refl 1) hlv
+  have hv : v ≤ s.numvar + 1 := by omega
+  have hmax : max v (s.numvar + 1) = s.numvar + 1 := by omega
+  obtain ⟨tail, htail⟩ := defaultNames_defined (dfmt := dfmt) (a := v) (b := s.numvar + 1) (fun u h1 h2 => by
+    have := hn u (by omega) (by omega)
+    rwa [varName_of_find_none (a5 u h1)] at this)
+  refine ⟨ls ++ tail, ?_⟩
+  simp only [allLabels, bind, Except.bind, pure, Except.pure, hlv, htail, hmax, ne_eq, not_true_eq_false,
+    if_false]
 
 end Vars
 end Cnfgen
